@@ -462,9 +462,11 @@ func (g *gen) fill(v reflect.Value, owner reflect.Type, field string, depth int)
 	}
 	switch t.Kind() {
 	case reflect.String:
-		v.SetString(g.word())
+		v.SetString(g.str(t, owner, field))
 	case reflect.Bool:
-		v.SetBool(r.Bool())
+		b := r.Bool()
+		v.SetBool(b)
+		countAttr(g.c, owner, field, fmt.Sprint(b))
 	case reflect.Int, reflect.Int8, reflect.Int16, reflect.Int32, reflect.Int64:
 		v.SetInt(int64(r.Intn(5)))
 	case reflect.Uint, reflect.Uint8, reflect.Uint16, reflect.Uint32, reflect.Uint64:
@@ -542,7 +544,11 @@ func (g *gen) fill(v reflect.Value, owner reflect.Type, field string, depth int)
 				continue
 			}
 			rich := g.ti.reaches(f.Type, 0)
-			if !rich && r.Chance(55) {
+			skip := 55
+			if k := f.Type.Kind(); attrStructs[t.Name()] && (k == reflect.Bool || k == reflect.String) {
+				skip = 35 // enum / flag attributes of TLS-bearing elements: vary them more often
+			}
+			if !rich && r.Chance(skip) {
 				continue // leave many plain fields zero
 			}
 			g.fill(fv, t, f.Name, depth+1)
@@ -826,7 +832,19 @@ func history(c *hx.Ctx, r *hx.Rng, ti *typeInfo, size int) {
 	byName("listener", lnames, usedL)
 	byName("cluster", cnames, usedC)
 	byName("router", rnames, usedR)
-	qs = append(qs, q{"p:extends:", "GET", "?extends"}, q{"p:MOSNCONFIG:", "GET", "?MOSNCONFIG"},
+	// parameter forms of the handler under test that the fixed list above does not name (read from apis.go)
+	known := map[string]bool{"mosnconfig": true, "allrouters": true, "allclusters": true, "alllisteners": true,
+		"router": true, "cluster": true, "listener": true}
+	for _, p := range dumpParams() {
+		if known[p] || p != esc(p) {
+			continue
+		}
+		c.Count("query.extra-param=" + p)
+		for _, n := range []string{"", "l0", "c0", "r0", "tunnel_agent"} {
+			qs = append(qs, q{"p:" + p + ":" + esc(n), "GET", "?" + p + "=" + queryEsc(n)})
+		}
+	}
+	qs = append(qs, q{"p:extends:", "GET", "?extends"}, q{"p:features:", "GET", "?features"}, q{"p:MOSNCONFIG:", "GET", "?MOSNCONFIG"},
 		q{"x:two", "GET", "?mosnconfig&allclusters"}, q{"x:post", "POST", ""})
 	var qtoks, res []string
 	for _, qq := range qs {
@@ -850,6 +868,11 @@ func history(c *hx.Ctx, r *hx.Rng, ti *typeInfo, size int) {
 
 func Run(c *hx.Ctx) {
 	ti := &typeInfo{secret: map[reflect.Type]bool{}}
+	if d := getDict(); d.fallback {
+		c.Count("attr-dictionary=builtin-fallback")
+	} else {
+		c.Count(fmt.Sprintf("attr-dictionary=from-source typed=%d whitebox=%d pool=%d", len(d.typed), len(d.whiteA), len(d.poolB)))
+	}
 	c.Emit("C20", "graph", strings.Join(graphFacts(), " "))
 	n := c.N(400, 12000)
 	for i := 0; i < n; i++ {
